@@ -465,7 +465,11 @@ impl Interp {
         let live_g = World::live(&self.world.regions);
         let nlive_ch = self.model.chans.iter().filter(|c| c.rx != RxLoc::Dropped || c.senders > 0).count();
         for _ in 0..40 {
-            let k = self.rng.below(100);
+            let mut k = self.rng.below(100);
+            // a live one-shot server makes the rendezvous steps more likely (they are rare otherwise)
+            if !live_srv.is_empty() && self.rng.chance(120) {
+                k = 96 + self.rng.below(2);
+            }
             match k {
                 0..=9 => {
                     if nlive_ch < self.bias.max_chans && self.model.chans.len() < 40 {
